@@ -391,6 +391,9 @@ def run(rep, programs):
     c03.r_split_order(rep, prog)
     from props import c06
     c06.r_fill_writes(rep, prog)      # recover repairs with Bitfield::fill(false)
+    from props import c17
+    c17.r_nvm_layout(rep, prog)       # the persistent header must not be overlapped by the lower metadata, or recovery refuses the region
+    c17.r_nvm_header(rep, prog)
     r_recover_domain(rep, prog)
     r_recover_complete(rep, prog)
     r_recover_flow(rep, prog)
